@@ -1,6 +1,8 @@
 import AFV.Spec.FusedPeak
 import AFV.Lemmas.NestUsage
 import AFV.Lemmas.PeakLeaf3
+import AFV.Spec.PeakSingle
+import AFV.Lemmas.NestScale2
 /-!
 # C06 — reported memory usage equals the execution-time peak occupancy  (PARTIAL)
 
@@ -20,7 +22,8 @@ Proved here
   n_instances (C19: `scale_energy`, `scale_throughput`, `scale_instances` carry `usageView`).
 
 NOT proved (covered by the correspondence with `evaluate_mapping` only; the full statements are)
-* the second half of `peak_single : WF m → analytic's memBits l = peak (leaf m) l`: that the tracker state machine of
+* the full single-Einsum statement, written down as `PeakSingleStatement : Prop` below (`WF m → Toll-free → analytic's memBits l =
+  peak (leaf m) l`); its instances are evaluated by the driver on generated nests in every run.  The missing half: that the tracker state machine of
   `insert_reservation_nodes` places every Reservation at the declarative allocation point of the reference (`FusedPeak.lower`), i.e.
   `memBits l = allocSum (descsOf …) l` (the existing `tracker_placed` shows well-formed placement, not yet maximal lowering);
   with it `peak_single_timeline` would give `peak_single`;
@@ -106,6 +109,39 @@ example :
     let pre : List PNode := [.storage 1 0 [0] true, .storage 2 0 [1, 3] false, .loop 3 0 1, .storage 4 1 [0] false, .loop 5 1 1,
                              .storage 6 1 [3, 1] false, .loop 7 2 1]
     leafOK w pre 0 = true ∧ peak w (.leaf pre 0) 0 = 128 ∧ peak w (.leaf pre 0) 1 = 32 := by decide +kernel
+
+section Statement
+open AFV.Nest AFV.NestExec AFV.PeakSingle
+
+/-- **The full single-Einsum statement of C06 — NOT proved** (a `def … : Prop`, neither a theorem nor an axiom): for every
+well-formed Toll-free nest the bits reported for every memory (the model of run_model's reservation accounting) equal the
+reference peak.  Open half: the tracker of `insert_reservation_nodes` allocates at `FusedPeak.lower`'s points; the other half
+is `peak_single_timeline`.  The driver evaluates the decidable instance `peakSingleCheck` on generated nests in every run. -/
+def PeakSingleStatement : Prop :=
+  ∀ (arch : Arch Rat) (wq : Workload Rat) (wn : Workload Nat) (m : Mapping Nat),
+    WF arch wn m = true → Compat wq wn → noToll m = true → peakSingleCheck arch wq wn m = true
+
+def exArch2 : Arch Rat :=
+  let act : Act Rat := { energy := 1, throughput := 1, bpa := none, vpa := [] }
+  let mem (s : Rat) : Level Rat := { isToll := false, size := s, leak := 0, actionsScale := 1, skipInitial := true, bpvOv := [],
+                                      bpa := none, vpa := [], read := act, write := act, dir := [] }
+  { levels := [mem 4096, mem 256], compute := { energy := 1, throughput := 1, leak := 0, actionsScale := 1, skipInitial := true } }
+def exWn2 : Workload Nat :=
+  { bounds := [4, 6, 2], nInstances := 1,
+    tensors := [{ rvs := [0, 1], isOutput := false, bpv := 1 }, { rvs := [1, 2], isOutput := false, bpv := 1 },
+                { rvs := [0, 2], isOutput := true, bpv := 1 }] }
+def exWq2 : Workload Rat :=
+  { bounds := [4, 6, 2], nInstances := 1,
+    tensors := [{ rvs := [0, 1], isOutput := false, bpv := 8 }, { rvs := [1, 2], isOutput := false, bpv := 8 },
+                { rvs := [0, 2], isOutput := true, bpv := 8 }] }
+def exMap2 : Mapping Nat :=
+  [.storage 0 [0, 1, 2] true, .loop 0 2, .storage 1 [0, 2] true, .loop 1 1, .storage 1 [1] true, .loop 2 1, .loop 0 1, .compute]
+
+/-- an instance of the statement (hypotheses and conclusion hold) -/
+example : WF exArch2 exWn2 exMap2 = true ∧ noToll exMap2 = true ∧ peakSingleCheck exArch2 exWq2 exWn2 exMap2 = true := by
+  decide +kernel
+
+end Statement
 
 /-- Non-vacuity: a two-Einsum tree with a shared loop; the reference evaluates. -/
 example :
